@@ -780,3 +780,26 @@ def c14_11(R):
                    "pop_expired_mtu_probe answers NotExpired for a segment that is not an undelivered probe: segmentation of buffered data waits for a probe that needs no waiting for",
                    where=it.where(), instance="NotExpired=>undelivered-probe")
     R.floor("NotExpired answers in pop_expired_mtu_probe", n, 1)
+
+
+@rule("C14.12", ["C14"], ["E3"], "a probe size is declared failed only after a datagram of that size was transmitted",
+      "Segments::pop_expired_mtu_probe answers Expired - and the caller then lowers the ceiling below that size - under `retransmit_timed_out && is_mtu_probe && retransmit_count() >= limit`. "
+      "The timer that timed out belongs to the oldest outstanding segment, not necessarily to the probe: the answer must also be control-dependent on the probe having been transmitted "
+      "(its SentStatus, send_count() > 0, ...), or a probe that is queued behind the congestion window is declared lost without ever having been on the wire (with a limit of 0 retransmissions) "
+      "and the search settles below the largest size that fits.")
+def c14_12(R):
+    px = R.body("stream_tx_segments::Segments::pop_expired_mtu_probe")
+    n = 0
+    for it, cls in ret_assignments(px):
+        if not cls.startswith("Expired"):
+            continue
+        n += 1
+        conds = [describe_cond(px, t, lab) for t, tgt, lab in controlling_edges(px, it.bb)]
+        sent = any("Segment.sent" in c or "send_count" in c or "is_sent" in c for c in conds)
+        if sent:
+            R.ok("Expired=>probe-was-transmitted", px.name, "answer given under a test of the probe's sent status")
+        else:
+            R.fail([px.name, "Expired-not-under(transmitted)"],
+                   "pop_expired_mtu_probe declares a probe failed without testing that it was ever transmitted (guards: %s): with mtu_probe_max_retransmissions = 0 another segment's timeout "
+                   "lowers the ceiling below a size that was never tried" % ", ".join(sorted(conds)), where=it.where(), instance="Expired=>probe-was-transmitted")
+    R.floor("Expired answers in pop_expired_mtu_probe", n, 1)
